@@ -30,10 +30,32 @@ import (
 //             reference unanswered, answered, unknown, repeated and foreign counters. Reference model:
 //             the unanswered sent requests per connection. A third of the cases end with the black-box
 //             bounded-memory probe.
+//             Requests with SEVERAL commands (reachable only through Sender.Request(..., cmd []model.CmdType)) are
+//             part of the domain: 8 command lists of 2-3 commands over 2 destinations that share their first
+//             command, their last command or a whole prefix with another list or with a single-command request
+//             of the domain ([A] [A,B] [A,C] [A,B,C] [B,C] ...). Identity = destination + the WHOLE list: identical
+//             lists are duplicates while unanswered, lists that differ anywhere are different requests and are
+//             never withheld. (The same commands in another ORDER are not generated: the statement does not say
+//             whether [A,B] and [B,A] are "the same command".)
 //   notify    sequential histories of 1..260 notifications (API and subscription fan-out) mixed with
 //             other sends; without lookups each of the last 100 must be retrievable unchanged; with
 //             interleaved lookups an exact LRU-with-promotion model separates the known finding D19
 //             (signature notifycache/evicted-after-lookup-promotion) from every other deviation.
+//             Mixed traffic: the counter is shared by every outbound kind of the connection, the cache is not.
+//             Per case a drawn proportion (0, 1/4, 1, 3, 6 or 12 other datagrams per notification, plus bursts of
+//             99/100/101/150 other datagrams behind a notification) of Reply, ResultSuccess, ResultError, Write,
+//             read Request, Subscribe/Unsubscribe/Bind/Unbind calls and RequestRemoteData goes out between the
+//             notifications, so that a notification among the last 100 NOTIFICATIONS is hundreds of counters old;
+//             the second connection (identical numbering) notifies as well. Reference: a notification must be
+//             retrievable if it is among the last 100 notifications sent on THAT connection, whatever else was sent.
+//   mute      a connection WITHOUT writer (DeviceLocal.SetupRemoteDevice(ski, nil)): every send fails inside the sender,
+//             nothing is ever written. 3-6 requests of the domain (single- and multi-command, through Sender.Request,
+//             Subscribe/Unsubscribe/Bind/Unbind, FeatureLocal.RequestRemoteData/SubscribeToRemote/BindToRemote) are each
+//             issued three times, interleaved with each other and with notify/write calls. A request that was never
+//             written is not "unanswered", so none of the calls may be withheld as a duplicate: every call must report
+//             the failure (error), never a nil error with the counter of a datagram that was never written. Then the
+//             connection is replaced by one with a writer and every request must be written (and its immediate repeat
+//             withheld with that counter, as on any healthy connection).
 //   conc(-race) 8..16 goroutines on the senders of two connections mixing all sender calls; uniqueness
 //             per tap, interval issue order, identity of returned counter and datagram, soundness of
 //             withholding on the recorded intervals, lookups equal to the tap.
@@ -52,22 +74,27 @@ func init() {
 	rig.Register(&rig.Check{
 		ID:    "C13",
 		Floor: 90,
-		Rule: "dedupe: case = seeded history of 40-160 sender operations on two connections (request from a 28 key domain 4 destinations x 4 commands + 8 subscription/binding calls + 4 RequestRemoteData, unique request, notify/write/reply, " +
+		Rule: "dedupe: case = seeded history of 40-160 sender operations on two connections (request from a 44 key domain: 4 destinations x 4 commands + 8 subscription/binding calls + 4 RequestRemoteData + 2 destinations x 8 lists of 2-3 commands that share first/last commands or prefixes with each other and with the single-command requests (30% of the requests, half of them aimed at a list related to an unanswered request), unique request, notify/write/reply, " +
 			"response by API, by accepted inbound reply/result or by an inbound reply/result the stack rejects (foreign function, unknown local feature, never announced source feature) referencing an unanswered/answered/unknown/repeated/foreign counter), every third case followed by the bounded-memory probe; " +
-			"notify: case = (number of notifications 1..260 with the boundaries 99,100,101 forced, lookups interleaved or not, share of fan-out notifications and other sends); " +
+			"notify: case = (number of notifications 1..260 with the boundaries 99,100,101 forced, lookups interleaved or not, share of fan-out notifications, proportion of other outbound datagrams per notification {0,1/4,1,3,6,12} drawn from reply/resultSuccess/resultError/write/read request/subscribe/unsubscribe/bind/unbind/RequestRemoteData, bursts of 99/100/101/150 other datagrams behind a notification, notifications on the second connection); " +
+			"mute: case = 3-6 requests of the 44 key domain + FeatureLocal.SubscribeToRemote/BindToRemote, each issued three times in a drawn interleaving with notify/write calls on a connection without writer, then once and once more on the connection that replaces it (with a writer); non-trivial if at least 9 failing calls and 3 requests written after the reconnect were judged; " +
 			"conc: case = (8-16 goroutines, 25-80 calls each, mix 'all calls' or 'few keys', connection writer yielding the processor before every n-th write, n in {never,1,2,3,5}). A case is non-trivial if it judged at least one withheld and one re-enabled request (dedupe), at least one retrieval per retained notification (notify), " +
 			"or at least 200 datagrams with at least one pair of non-overlapping calls (conc); distinct = distinct operation-shape sequences (hash), counters and payload values excluded.",
 		Assumptions: []string{
 			"'identical' is read as the statement defines it: same destination address and same command list; source address, classifier and ack flag are not varied within one key",
 			"the reference model only REQUIRES withholding for an immediate repeat (no other sender operation in between) and only ALLOWS it while an identical request is unanswered in the model, because the statement lets the memory of unanswered requests forget",
-			"the known finding D19 is recognised by an exact LRU(100)-with-promotion model; a missing notification that this model does not explain is a violation",
+			"the known finding D19 is recognised by an exact LRU(100)-with-promotion model over the NOTIFICATIONS of the connection (other outbound kinds consume counters, not cache slots); a missing notification that this model does not explain is a violation with another signature",
+			"'same command' is read as 'the same command list': two requests whose lists differ in any position or in length are different requests; lists that are permutations of each other are not generated (the statement does not decide them)",
+			"notifications older than the last 100 of their connection may or may not be retrievable (the statement only promises the last 100); a counter that no notification of the connection carries must never yield a datagram",
 			"in concurrent histories a response is only ever generated for a counter the harness has already seen returned",
+			"a request whose send failed (connection without writer: the only send fault the sender can produce) was never written to the peer, so it is not an 'unanswered request': a later identical request must not be withheld because of it, and since it cannot be written either the call must return an error; which counter accompanies the error is not judged. On a connection with a writer an error return stays a violation",
 		},
 		Parts: []rig.Part{
 			{Name: "dedupe", Cases: pick(150, 4000), Run: c13Dedupe},
 			{Name: "notify", Cases: pick(60, 700), Run: c13Notify},
 			{Name: "conc", Cases: pick(48, 1500), Run: c13Conc, Procs: 8, Workers: 8},
 			{Name: "conc-race", Race: true, Cases: pick(16, 300), Run: c13Conc, Procs: 8, Workers: 8, Quiet: 120 * time.Second},
+			{Name: "mute", Cases: pick(48, 600), Run: c13Mute},
 		},
 	})
 }
@@ -202,6 +229,60 @@ func c13Domain(cw *c13World, p *rig.Peer) []c13Req {
 	return dom
 }
 
+// c13Multi: requests whose datagram carries SEVERAL commands (public API Sender.Request with a cmd slice of 2-3
+// elements). The lists are chosen so that each shares its first command, its last command, its length or a whole
+// prefix with another list or with a single-command request of c13Domain (A = d*c0, B = d*c1, C = d*c2, D = d*c3):
+// a request is identified by its destination and the WHOLE list. No list is a permutation of another one.
+func c13Multi(cw *c13World, p *rig.Peer) []c13Req {
+	selCmd := func(id uint) model.CmdType {
+		return model.CmdType{Function: util.Ptr(model.FunctionTypeMeasurementListData),
+			Filter: []model.FilterType{{CmdControl: &model.CmdControlType{Partial: &model.ElementTagType{}},
+				MeasurementListDataSelectors: &model.MeasurementListDataSelectorsType{MeasurementId: util.Ptr(model.MeasurementIdType(id))}}},
+			MeasurementListData: &model.MeasurementListDataType{}}
+	}
+	mk := map[byte]func() model.CmdType{
+		'A': func() model.CmdType { return model.CmdType{MeasurementListData: &model.MeasurementListDataType{}} },
+		'B': func() model.CmdType { return selCmd(1) },
+		'C': func() model.CmdType { return selCmd(2) },
+		'D': func() model.CmdType {
+			return model.CmdType{MeasurementDescriptionListData: &model.MeasurementDescriptionListDataType{}}
+		},
+	}
+	lists := []string{"AB", "AC", "AD", "BC", "DC", "ABC", "ABD", "ABB"}
+	dests := []*model.FeatureAddressType{rig.FA(p.Addr, []uint{1}, 1), rig.FA(p.Addr, []uint{2}, 1)}
+	var dom []c13Req
+	for di, d := range dests {
+		for _, l := range lists {
+			var cmd []model.CmdType
+			for i := 0; i < len(l); i++ {
+				cmd = append(cmd, mk[l[i]]())
+			}
+			dom = append(dom, c13Req{name: fmt.Sprintf("m%d[%s]", di*2, l), cls: model.CmdClassifierTypeRead, src: cw.cl.Address(), dst: d, cmd: cmd, via: "request"})
+		}
+	}
+	return dom
+}
+
+// c13Sig: the renderings c13Related compares, computed once per request of a connection's domain.
+type c13Sig struct{ key, dst, first, last string }
+
+func c13SigOf(q c13Req) c13Sig {
+	g := c13Sig{key: q.key(), dst: rig.JS(q.dst)}
+	if len(q.cmd) > 0 {
+		g.first, g.last = rig.JS(q.cmd[0]), rig.JS(q.cmd[len(q.cmd)-1])
+	}
+	return g
+}
+
+// c13Related: q and o go to the same destination, differ as lists and agree in their first or in their last
+// command (or one list is a prefix of the other): the requests a partial comparison of the command list confuses.
+func c13Related(q, o c13Sig) bool {
+	if q.first == "" || o.first == "" || q.dst != o.dst || q.key == o.key {
+		return false
+	}
+	return q.first == o.first || q.last == o.last
+}
+
 // issue sends q through the API variant it stands for.
 func c13Issue(cw *c13World, p *rig.Peer, q c13Req) (*model.MsgCounterType, error) {
 	s := p.RD.Sender()
@@ -231,6 +312,9 @@ func c13Issue(cw *c13World, p *rig.Peer, q c13Req) (*model.MsgCounterType, error
 type c13Conn struct {
 	p          *rig.Peer
 	dom        []c13Req
+	multi      []c13Req // requests with several commands
+	relSig     []c13Sig // renderings of multi + the 16 single-command read requests: what a multi-command request can be confused with
+	multiSig   []c13Sig // renderings of multi, same index
 	unanswered map[string][]model.MsgCounterType
 	keyOf      map[model.MsgCounterType]string // every request counter sent on this connection
 	answered   map[model.MsgCounterType]bool
@@ -270,7 +354,7 @@ func c13Dedupe(c *rig.Ctx) {
 	}
 	var conns []*c13Conn
 	for _, p := range cw.peers {
-		cn := &c13Conn{p: p, dom: c13Domain(cw, p), unanswered: map[string][]model.MsgCounterType{}, keyOf: map[model.MsgCounterType]string{}, answered: map[model.MsgCounterType]bool{}, seen: map[model.MsgCounterType]bool{}}
+		cn := &c13Conn{p: p, dom: c13Domain(cw, p), multi: c13Multi(cw, p), unanswered: map[string][]model.MsgCounterType{}, keyOf: map[model.MsgCounterType]string{}, answered: map[model.MsgCounterType]bool{}, seen: map[model.MsgCounterType]bool{}}
 		// what the stack sent on its own while connecting is part of the history
 		for _, d := range p.Tap.Take() {
 			cn.absorb(c, d, viol)
@@ -285,11 +369,16 @@ func c13Dedupe(c *rig.Ctx) {
 				cn.keyOf[*d.Header.MsgCounter] = k
 			}
 		}
+		for _, q := range append(append([]c13Req(nil), cn.multi...), cn.dom[:16]...) {
+			cn.relSig = append(cn.relSig, c13SigOf(q))
+		}
+		cn.multiSig = cn.relSig[:len(cn.multi)]
 		conns = append(conns, cn)
 	}
 	heavy := c.Index%2 == 1 // also unique requests: more than 20 unanswered, eviction
 	nOps := 40 + r.Intn(c.Pick(100, 140))
 	var withheld, reenabled, fresh, evictedResend int64
+	var multiSent, multiWithheld, multiBesideRelated int64
 	checkLen := func(cn *c13Conn, where string) {
 		if n := c13Sender(cn.p).VerifRequestCacheLen(); n > c13CacheBound {
 			viol("dedupe/memory-exceeds-bound", "%s: the sender remembers %d unanswered requests (bound %d)", where, n, c13CacheBound)
@@ -442,8 +531,57 @@ func c13Dedupe(c *rig.Ctx) {
 					}
 				}
 			}
-			shape = append(shape, "Q"+q.via[:2])
-			request(cn, q, "request")
+			if r.Intn(10) < 3 {
+				// a request with several commands; every second time one that shares its destination and its first or
+				// last command (or a whole prefix) with a request that is unanswered right now, if there is one
+				mi := r.Intn(len(cn.multi))
+				if r.Intn(2) == 0 {
+					var cand []int
+					for _, o := range cn.relSig {
+						if len(cn.unanswered[o.key]) == 0 {
+							continue
+						}
+						for qi, q2 := range cn.multiSig {
+							if len(cn.unanswered[q2.key]) == 0 && c13Related(q2, o) {
+								cand = append(cand, qi)
+							}
+						}
+					}
+					if len(cand) > 0 {
+						mi = cand[r.Intn(len(cand))]
+					}
+				}
+				q = cn.multi[mi]
+			}
+			if len(q.cmd) > 1 {
+				shape = append(shape, fmt.Sprintf("QM%d", len(q.cmd)))
+				related := 0
+				qs := c13SigOf(q)
+				for _, o := range cn.relSig {
+					if len(cn.unanswered[o.key]) > 0 && c13Related(qs, o) {
+						related++
+					}
+				}
+				own := len(cn.unanswered[q.key()])
+				if f, _, ok := request(cn, q, "request with "+fmt.Sprint(len(q.cmd))+" commands"); ok {
+					if f {
+						multiSent++
+						if related > 0 && own == 0 {
+							// the deciding shape: sent although a request to the same destination that agrees with it in the
+							// first/last command is unanswered (request() has reported it if it was withheld instead)
+							multiBesideRelated++
+						}
+					} else {
+						multiWithheld++
+						if related > 0 && own == 0 {
+							c.Count("dedupe:multi-command-request-withheld-beside-related-unanswered(reported)", 1)
+						}
+					}
+				}
+			} else {
+				shape = append(shape, "Q"+q.via[:2])
+				request(cn, q, "request")
+			}
 			if r.Intn(3) == 0 { // immediate repeat
 				shape = append(shape, "R")
 				request(cn, q, "immediate repeat")
@@ -561,6 +699,9 @@ func c13Dedupe(c *rig.Ctx) {
 	c.Count("dedupe:sent", fresh)
 	c.Count("dedupe:sent-again-after-response", reenabled)
 	c.Count("dedupe:sent-again-while-unanswered(forgotten)", evictedResend)
+	c.Count("dedupe:multi-command-requests-sent", multiSent)
+	c.Count("dedupe:multi-command-requests-withheld-as-duplicates", multiWithheld)
+	c.Count("dedupe:multi-command-requests-sent-while-a-request-sharing-destination-and-first-or-last-command-is-unanswered", multiBesideRelated)
 	mx := 0
 	for _, cn := range conns {
 		if n := cn.unansweredCount(); n > mx {
@@ -657,14 +798,84 @@ func c13Notify(c *rig.Ctx) {
 	p.Subscribe(rig.FA(p.Addr, []uint{1}, 2), cw.srv.Address(), model.FeatureTypeTypeMeasurement)
 	p.Tap.Take()
 
-	forced := []int{99, 100, 101, 1, 2, 200, 250}
+	// forced: {notifications, other datagrams per notification x4, burst of other datagrams behind one notification}
+	forced := [][3]int{{99, 0, 0}, {100, 0, 0}, {101, 0, 0}, {1, 0, 0}, {2, 0, 0}, {200, 0, 0}, {250, 0, 0},
+		{1, 0, 99}, {1, 0, 100}, {1, 0, 101}, {2, 0, 100}, {100, 4, 0}, {101, 4, 0}, {101, 12, 0}, {60, 24, 0}, {3, 0, 150}, {120, 1, 101}, {40, 12, 100}, {100, 48, 0}, {30, 48, 150}}
 	n := 1 + r.Intn(c.Pick(260, 420))
-	if c.Index < len(forced) {
-		n = forced[c.Index]
-	}
 	lookups := c.Index%2 == 1
 	fanout := r.Intn(3) == 0
-	others := r.Intn(2) == 0
+	// mixed traffic: the message counter is shared by all outbound kinds of the connection, the cache holds notifications
+	mix4 := []int{0, 0, 1, 1, 4, 4, 12, 24, 24, 48}[r.Intn(10)] // other datagrams per notification, times 4
+	burst := 0
+	if r.Intn(4) == 0 {
+		burst = []int{99, 100, 101, 150}[r.Intn(4)]
+	}
+	if c.Index < len(forced) {
+		n, mix4, burst = forced[c.Index][0], forced[c.Index][1], forced[c.Index][2]
+	}
+	if mix4 >= 24 && n > 140 && c.Index >= len(forced) {
+		n = 101 + n%40 // 6-12 other datagrams per notification: a good hundred notifications span over a thousand counters
+	}
+	burstAt := r.Intn(n) // the burst follows notification number burstAt+1
+	if r.Intn(3) == 0 {
+		burstAt = maxInt(0, n-100+r.Intn(minInt(n, 3))) // right behind one of the oldest retained notifications
+	}
+	others := mix4 > 0 || burst > 0
+	s1 := cw.peers[1].RD.Sender()
+	rfs := []api.FeatureRemoteInterface{p.RD.FeatureByAddress(rig.FA(p.Addr, []uint{1}, 1)), p.RD.FeatureByAddress(rig.FA(p.Addr, []uint{2}, 1))}
+	nOther, nUniq := 0, 0
+	otherKinds := map[string]int{}
+	// other sends one datagram (or, for a request the sender withholds, none) of a drawn non-notification kind
+	other := func() {
+		nUniq++
+		hdr := &model.HeaderType{AddressSource: rig.FA(p.Addr, []uint{1}, 2), AddressDestination: cw.srv.Address(), MsgCounter: util.Ptr(model.MsgCounterType(500000 + nUniq))}
+		uf := rig.FA(p.Addr, []uint{1}, uint(1000+nUniq)) // a server feature address nobody else uses: the call is never a duplicate
+		kind := ""
+		switch r.Intn(12) {
+		case 0:
+			kind = "reply"
+			_ = s.Reply(hdr, cw.srv.Address(), c13UniqueCmd(fmt.Sprintf("r%d", nUniq)))
+		case 1:
+			kind = "resultSuccess"
+			_ = s.ResultSuccess(hdr, cw.srv.Address())
+		case 2:
+			kind = "resultError"
+			_ = s.ResultError(hdr, cw.srv.Address(), model.NewErrorTypeFromString("e"))
+		case 3, 4:
+			kind = "write"
+			_, _ = s.Write(cw.cl.Address(), rig.FA(p.Addr, []uint{1}, 1), c13UniqueCmd(fmt.Sprintf("w%d", nUniq)))
+		case 5, 6:
+			kind = "read"
+			_, _ = s.Request(model.CmdClassifierTypeRead, cw.cl.Address(), rig.FA(p.Addr, []uint{1}, 1), false, []model.CmdType{c13UniqueCmd(fmt.Sprintf("q%d", nUniq))})
+		case 7:
+			kind = "subscribe"
+			_, _ = s.Subscribe(cw.cl.Address(), uf, model.FeatureTypeTypeMeasurement)
+		case 8:
+			kind = "bind"
+			_, _ = s.Bind(cw.cl.Address(), uf, model.FeatureTypeTypeMeasurement)
+		case 9:
+			kind = "unsubscribe"
+			if r.Intn(2) == 0 {
+				kind = "unbind"
+				_, _ = s.Unbind(cw.cl.Address(), uf)
+			} else {
+				_, _ = s.Unsubscribe(cw.cl.Address(), uf)
+			}
+		case 10:
+			kind = "requestRemoteData"
+			if rf := rfs[r.Intn(len(rfs))]; rf != nil {
+				fns := []model.FunctionType{model.FunctionTypeMeasurementListData, model.FunctionTypeMeasurementDescriptionListData, model.FunctionTypeMeasurementConstraintsListData, model.FunctionTypeMeasurementThresholdRelationListData}
+				_, _ = cw.cl.RequestRemoteData(fns[r.Intn(len(fns))], nil, nil, rf) // withheld while an identical read is unanswered
+			}
+		default:
+			// the other connection numbers its datagrams identically and has a cache of its own
+			kind = "notify-on-the-second-connection"
+			_, _ = s1.Notify(cw.srv.Address(), rig.FA(cw.peers[1].Addr, []uint{1}, 2), c13UniqueCmd(fmt.Sprintf("x%d", nUniq)))
+			cw.peers[1].Tap.Take()
+		}
+		nOther++
+		otherKinds[kind]++
+	}
 
 	tap := map[model.MsgCounterType]model.DatagramType{}
 	var notifies []model.MsgCounterType // in issue order
@@ -682,7 +893,7 @@ func c13Notify(c *rig.Ctx) {
 		}
 		c.Violate(sig, "%s\n(n=%d lookups=%v) last operations:\n%s", fmt.Sprintf(f, a...), n, lookups, strings.Join(tr, "\n"))
 	}
-	var judged, promotedEvictions int64
+	var judged, promotedEvictions, oldRetained, oldRetainedFound int64
 	seen := map[model.MsgCounterType]bool{}
 	var maxCtr model.MsgCounterType
 	collect := func() {
@@ -717,7 +928,13 @@ func c13Notify(c *rig.Ctx) {
 		}
 		inLast100 := idx >= 0 && idx >= len(notifies)-100
 		modelHas := lru.get(m)
-		log("lookup %d (notification #%d of %d, among last 100: %v) -> found=%v, LRU-with-promotion model has it: %v", m, idx+1, len(notifies), inLast100, err == nil, modelHas)
+		log("lookup %d (notification #%d of %d, among last 100: %v, %d counters behind the newest datagram) -> found=%v, LRU-with-promotion model has it: %v", m, idx+1, len(notifies), inLast100, int64(maxCtr)-int64(m), err == nil, modelHas)
+		if inLast100 && int64(maxCtr)-int64(m) >= 100 {
+			oldRetained++
+			if err == nil {
+				oldRetainedFound++
+			}
+		}
 		if err == nil {
 			want, ok := tap[m]
 			switch {
@@ -763,16 +980,26 @@ func c13Notify(c *rig.Ctx) {
 			viol("notify/not-one-datagram", "a notification produced %d notify datagrams", len(notifies)-before)
 			break
 		}
-		if others && r.Intn(4) == 0 {
-			switch r.Intn(3) {
-			case 0:
-				_, _ = s.Write(cw.cl.Address(), rig.FA(p.Addr, []uint{1}, 1), c13UniqueCmd("w"))
-			case 1:
-				_, _ = s.Request(model.CmdClassifierTypeRead, cw.cl.Address(), rig.FA(p.Addr, []uint{1}, 1), false, []model.CmdType{c13UniqueCmd(fmt.Sprintf("q%d", len(notifies)))})
-			default:
-				_ = s.ResultSuccess(&model.HeaderType{AddressSource: rig.FA(p.Addr, []uint{1}, 2), AddressDestination: cw.srv.Address(), MsgCounter: util.Ptr(model.MsgCounterType(5))}, cw.srv.Address())
+		if others {
+			k := mix4 / 4
+			if r.Intn(4) < mix4%4 {
+				k++
 			}
-			collect()
+			if burst > 0 && len(notifies) == burstAt+1 {
+				k += burst
+				log("burst of %d other datagrams behind notification #%d", burst, len(notifies))
+			}
+			if k > 0 {
+				for i := k; i > 0; i-- {
+					other()
+				}
+				before := len(notifies)
+				collect()
+				if len(notifies) != before {
+					viol("send/non-notification-call-wrote-a-notification", "other sender calls produced %d notify datagrams on the connection", len(notifies)-before)
+				}
+				log("%d other sender calls (%d so far), counter now %d", k, nOther, maxCtr)
+			}
 		}
 		if lookups && r.Intn(5) == 0 {
 			// mostly the oldest retained ones: that is what a result referencing an old notification looks up
@@ -803,8 +1030,17 @@ func c13Notify(c *rig.Ctx) {
 	for i := 0; i < lo && i < 30; i++ {
 		probe = append(probe, notifies[r.Intn(lo)])
 	}
-	for m, d := range tap { // counters of non-notifications are never in the cache with a foreign datagram
-		if c13Cls(d) != model.CmdClassifierTypeNotify && len(probe) < 160 {
+	// counters of non-notifications are never in the cache with a foreign datagram: a drawn sample of them
+	var nonNotif []model.MsgCounterType
+	for m, d := range tap {
+		if c13Cls(d) != model.CmdClassifierTypeNotify {
+			nonNotif = append(nonNotif, m)
+		}
+	}
+	sort.Slice(nonNotif, func(i, j int) bool { return nonNotif[i] < nonNotif[j] })
+	r.Shuffle(len(nonNotif), func(i, j int) { nonNotif[i], nonNotif[j] = nonNotif[j], nonNotif[i] })
+	for _, m := range nonNotif {
+		if len(probe) < 160 {
 			probe = append(probe, m)
 		}
 	}
@@ -815,6 +1051,15 @@ func c13Notify(c *rig.Ctx) {
 	c.Count("notify:lookups-judged", judged)
 	c.Count("notify:notifications", int64(len(notifies)))
 	c.Count("notify:evictions-explained-by-promotion", promotedEvictions)
+	c.Count("notify:other-sender-calls-between-notifications", int64(nOther))
+	c.Count("notify:lookups-of-a-last-100-notification-that-is-100-or-more-counters-old", oldRetained)
+	c.Count("notify:...of-which-retrieved", oldRetainedFound)
+	for k, v := range otherKinds {
+		c.Count("notify:other:"+k, int64(v))
+	}
+	if oldRetained > 0 {
+		c.Count("notify:cases-with-a-retained-notification-100-or-more-counters-old", 1)
+	}
 	bucket := "<100"
 	switch {
 	case n == 100:
@@ -826,15 +1071,22 @@ func c13Notify(c *rig.Ctx) {
 	case n > 100:
 		bucket = "101-200"
 	}
-	c.Shape(fmt.Sprintf("notify/%s/n%d/lookups=%v/fanout=%v/others=%v", bucket, n/10, lookups, fanout, others))
+	c.Shape(fmt.Sprintf("notify/%s/n%d/lookups=%v/fanout=%v/mix=%d/4/burst=%d", bucket, n/10, lookups, fanout, mix4, burst))
 	c.NonTrivial(judged >= int64(minInt(n, 100)))
 	if len(trace) > 30 {
 		trace = trace[len(trace)-30:]
 	}
-	c.Sample(map[string]any{"notifications": n, "lookups_interleaved": lookups, "fanout": fanout, "last_operations": trace})
+	c.Sample(map[string]any{"notifications": n, "lookups_interleaved": lookups, "fanout": fanout, "other_datagrams_per_notification_x4": mix4, "burst_of_other_datagrams": burst, "other_sender_calls": nOther, "last_operations": trace})
 	if c.Failed() {
-		c.Witness(map[string]any{"notifications": n, "lookups_interleaved": lookups, "last_operations": trace})
+		c.Witness(map[string]any{"notifications": n, "lookups_interleaved": lookups, "other_datagrams_per_notification_x4": mix4, "burst_of_other_datagrams": burst, "burst_behind_notification": burstAt + 1, "last_operations": trace})
 	}
+}
+
+func maxInt(a, b int) int {
+	if a > b {
+		return a
+	}
+	return b
 }
 
 func minInt(a, b int) int {
@@ -874,7 +1126,8 @@ func c13Conc(c *rig.Ctx) {
 	for _, p := range cw.peers {
 		p.Tap.Take()
 	}
-	doms := [][]c13Req{c13Domain(cw, cw.peers[0])[:12], c13Domain(cw, cw.peers[1])[:12]}
+	// 12 single-command requests + 8 requests with 2-3 commands (same destination, shared first/last commands)
+	doms := [][]c13Req{append(c13Domain(cw, cw.peers[0])[:12:12], c13Multi(cw, cw.peers[0])[:8]...), append(c13Domain(cw, cw.peers[1])[:12:12], c13Multi(cw, cw.peers[1])[:8]...)}
 	var shared [2]struct {
 		mu     sync.Mutex
 		issued []model.MsgCounterType
@@ -910,6 +1163,11 @@ func c13Conc(c *rig.Ctx) {
 					op := rr.Intn(13)
 					if fewKeys {
 						op = []int{0, 1, 7, 8, 9, 10, 10, 10, 10, 11, 11, 12, 10}[op]
+					}
+					if g%4 == 3 && rr.Intn(2) == 0 {
+						op = 12 // every fourth goroutine mostly looks notifications up: lookups overlap each other and Notify
+					} else if g%4 == 1 && rr.Intn(3) == 0 {
+						op = 0
 					}
 					src, dst := cw.cl.Address(), rig.FA(p.Addr, []uint{1}, 1)
 					hdr := &model.HeaderType{AddressSource: dst, AddressDestination: src, MsgCounter: util.Ptr(model.MsgCounterType(1000000 + g*1000 + i))}
@@ -1173,5 +1431,192 @@ func c13Conc(c *rig.Ctx) {
 	c.Sample(map[string]any{"goroutines": G, "calls_per_goroutine": per, "few_keys": fewKeys, "writer_yields_every": yieldEvery, "datagrams": datagrams, "call_kinds": ks, "non_overlapping_pairs": pairs})
 	if c.Failed() {
 		c.Witness(map[string]any{"goroutines": G, "calls_per_goroutine": per, "few_keys": fewKeys, "datagrams": datagrams})
+	}
+}
+
+// ---------------------------------------------------------------------------
+// part mute: requests on a connection without writer
+
+func c13Mute(c *rig.Ctx) {
+	cw := newC13World(c)
+	defer cw.w.Close()
+	r := c.Rand
+	mp := addMutePeer(cw.w, 0)
+	defer func() { cw.w.Local.RemoveRemoteDeviceConnection(mp.Ski) }()
+	mp.Announce(c13Feats()) // inbound works: the stack knows the peer's features (its own reaction cannot be written)
+	var trace, shape []string
+	log := func(f string, a ...any) { trace = append(trace, fmt.Sprintf(f, a...)) }
+	viol := func(sig, f string, a ...any) {
+		c.Violate(sig, "%s\noperations:\n%s", fmt.Sprintf(f, a...), strings.Join(trace, "\n"))
+	}
+	if mp.RD == nil || mp.RD.FeatureByAddress(rig.FA(mp.Addr, []uint{1}, 1)) == nil {
+		c.Inconclusive("the mute peer's announcement was not processed")
+		return
+	}
+	dom := append(c13Domain(cw, mp), c13Multi(cw, mp)...)
+	// two more wrappers that end in Sender.Subscribe / Sender.Bind
+	type mreq struct {
+		c13Req
+		fl string // "" | "subscribe" | "bind": through FeatureLocal.SubscribeToRemote / BindToRemote
+	}
+	var pool []mreq
+	for _, q := range dom {
+		pool = append(pool, mreq{c13Req: q})
+	}
+	for _, q := range dom {
+		// FeatureLocal.SubscribeToRemote([1]/1) IS the request sub0, BindToRemote([1]/1) IS bind0 (same destination, same command)
+		if q.name == "sub0" || q.name == "bind0" {
+			q2 := q
+			q2.name, q2.via = "FeatureLocal-"+q.via, "fl-"+q.via
+			pool = append(pool, mreq{c13Req: q2, fl: q.via})
+		}
+	}
+	issue := func(p *rig.Peer, q mreq) (*model.MsgCounterType, error) {
+		var mc *model.MsgCounterType
+		var e *model.ErrorType
+		switch q.fl {
+		case "subscribe":
+			mc, e = cw.cl.SubscribeToRemote(rig.FA(p.Addr, []uint{1}, 1))
+		case "bind":
+			mc, e = cw.cl.BindToRemote(rig.FA(p.Addr, []uint{1}, 1))
+		default:
+			if q.via == "rrd" {
+				q.rf = p.RD.FeatureByAddress(q.dst) // the remote feature object of the CURRENT connection
+				if q.rf == nil {
+					return nil, fmt.Errorf("harness: remote feature %s unknown", rig.JS(q.dst))
+				}
+			}
+			return c13Issue(cw, p, q.c13Req)
+		}
+		if e != nil {
+			return mc, fmt.Errorf("%s", e.String())
+		}
+		return mc, nil
+	}
+	n := 3 + r.Intn(4)
+	var chosen []mreq
+	for _, i := range r.Perm(len(pool))[:n] {
+		chosen = append(chosen, pool[i])
+	}
+	// every chosen request three times, in a drawn interleaving
+	var seq []int
+	for i := range chosen {
+		seq = append(seq, i, i, i)
+	}
+	if r.Intn(3) > 0 {
+		r.Shuffle(len(seq), func(i, j int) { seq[i], seq[j] = seq[j], seq[i] })
+	}
+	returned := map[string][]model.MsgCounterType{} // request identity -> counters returned by its failed calls
+	var failing, reported int64
+	s := mp.RD.Sender()
+	for k, i := range seq {
+		q := chosen[i]
+		mc, err := issue(mp, q)
+		c.Events(1)
+		failing++
+		shape = append(shape, "M"+q.via[:2]+fmt.Sprint(len(q.cmd)))
+		ctr := "none"
+		if mc != nil {
+			ctr = fmt.Sprint(*mc)
+		}
+		log("mute connection: call %d of %s (%s) -> counter %s, err=%v", len(returned[q.key()])+1, q.name, q.via, ctr, err)
+		if err == nil {
+			earlier := false
+			for _, x := range returned[q.key()] {
+				if mc != nil && x == *mc {
+					earlier = true
+				}
+			}
+			if earlier {
+				viol("mute/request-withheld-as-duplicate-of-a-request-that-was-never-written", "%s (%s) on a connection without writer returned counter %s and NO error: the counter is the one an earlier, FAILED call of the same request returned; nothing was ever written to this connection, so no identical request is unanswered", q.name, q.via, ctr)
+			} else {
+				viol("mute/request-reported-as-sent-although-nothing-was-written", "%s (%s) on a connection without writer returned counter %s and NO error although nothing can be written to this connection", q.name, q.via, ctr)
+			}
+			break
+		}
+		reported++
+		if mc != nil {
+			returned[q.key()] = append(returned[q.key()], *mc)
+		} else {
+			returned[q.key()] = append(returned[q.key()], 0)
+		}
+		if r.Intn(4) == 0 { // other kinds fail as well and must not disturb anything
+			var e2 error
+			if k%2 == 0 {
+				_, e2 = s.Notify(cw.srv.Address(), rig.FA(mp.Addr, []uint{1}, 2), c13UniqueCmd(fmt.Sprintf("n%d", k)))
+			} else {
+				_, e2 = s.Write(cw.cl.Address(), rig.FA(mp.Addr, []uint{1}, 1), c13UniqueCmd(fmt.Sprintf("w%d", k)))
+			}
+			shape = append(shape, "o")
+			if e2 == nil {
+				viol("mute/send-reported-as-done-although-nothing-was-written", "a notify/write on a connection without writer returned no error")
+				break
+			}
+		}
+	}
+	if mp.Tap.Total() != 0 {
+		c.Inconclusive("the mute peer's tap received a datagram: it is not mute")
+		return
+	}
+	c.Count("mute:failing-calls-judged", failing)
+	c.Count("mute:failures-reported-as-errors", reported)
+	c.Count("mute:requests-remembered-on-the-mute-connection(VerifRequestCacheLen, recorded only)", int64(c13Sender(mp).VerifRequestCacheLen()))
+	// the connection is replaced by one with a writer: every request must be written now
+	var written int64
+	if !c.Failed() {
+		cw.w.Local.RemoveRemoteDeviceConnection(mp.Ski)
+		mp.Tap = &rig.Tap{}
+		cw.w.Local.SetupRemoteDevice(mp.Ski, mp.Tap)
+		mp.RD = cw.w.Local.RemoteDeviceForSki(mp.Ski)
+		mp.Announce(c13Feats())
+		mp.Tap.Take() // discovery read, the stack's own subscription call and use-case read
+		log("the connection is replaced by one with a writer; the peer announces itself again")
+		sent := map[string]model.MsgCounterType{} // identities written (and unanswered) on the new connection
+		for _, i := range r.Perm(len(chosen)) {
+			q := chosen[i]
+			mc, err := issue(mp, q)
+			outs := mp.Tap.Take()
+			c.Events(1 + int64(len(outs)))
+			shape = append(shape, "R"+q.via[:2])
+			log("healthy connection: %s (%s) -> counter %v, err=%v, %d datagrams written", q.name, q.via, mc, err, len(outs))
+			prev, dup := sent[q.key()]
+			switch {
+			case err != nil || mc == nil:
+				viol("request/error-or-no-counter", "after the reconnect %s (%s): counter=%v err=%v", q.name, q.via, mc, err)
+			case dup:
+				// the same request was written through the other API a moment ago and is unanswered
+				if len(outs) != 0 && *mc == prev {
+					viol("request/several-datagrams", "%s returned the counter %d of the outstanding identical request and wrote %s", q.name, prev, rig.JS(outs))
+				}
+			case len(outs) != 1:
+				viol("mute-reconnect/request-not-written", "after the connection was replaced by one with a writer %s (%s) returned counter %d and wrote %d datagrams: %s", q.name, q.via, *mc, len(outs), rig.JS(outs))
+			case outs[0].Header.MsgCounter == nil || *outs[0].Header.MsgCounter != *mc:
+				viol("request/returned-counter-differs-from-datagram", "%s returned %d, datagram: %s", q.name, *mc, rig.JS(outs[0]))
+			case len(q.cmd) > 0 && c13Key(outs[0].Header.AddressDestination, outs[0].Payload.Cmd) != q.key():
+				viol("request/datagram-differs-from-call", "%s: sent %s", q.name, rig.JS(outs[0]))
+			default:
+				written++
+				sent[q.key()] = *mc
+				// and the immediate repeat is a duplicate of THIS, written and unanswered, request
+				mc2, err2 := issue(mp, q)
+				outs2 := mp.Tap.Take()
+				c.Events(1)
+				if err2 != nil || mc2 == nil {
+					viol("request/error-or-no-counter", "immediate repeat of %s after the reconnect: counter=%v err=%v", q.name, mc2, err2)
+				} else if len(outs2) != 0 || *mc2 != *mc {
+					viol("dedupe/immediate-repeat-sent-again", "after the reconnect %s was written as %d; its immediate repeat returned %d and wrote %d datagrams", q.name, *mc, *mc2, len(outs2))
+				}
+			}
+			if c.Failed() {
+				break
+			}
+		}
+	}
+	c.Count("mute:requests-written-after-the-connection-got-a-writer", written)
+	c.Shape(fmt.Sprintf("mute/%s", c13Hash(shape)))
+	c.NonTrivial(failing >= 9 && written >= 3)
+	c.Sample(map[string]any{"operations": trace})
+	if c.Failed() {
+		c.Witness(map[string]any{"operations": trace})
 	}
 }
